@@ -69,6 +69,25 @@ def run(ctx):
         if impl["hash %s %d %s" % (v, o, hx(d))] != exp:
             ctx.violations.append({"suite": "KNOWN-ANSWERS", "case": "hash %s %d %s" % (v, o, hx(d)),
                                    "impl": impl["hash %s %d %s" % (v, o, hx(d))], "what": "known answer %s" % h})
+    # length code vs the reference at every boundary of the PUBLISHED table; a differing length is turned into a whole-hash witness
+    import pyref
+    probes = sorted(set(x for tv in pyref.spec_topval() for x in (tv - 1, tv, tv + 1) if 0 <= x < 2 ** 32))
+    lout = core.run_cases(hb, ["len_new %d" % x for x in probes], tag="c01l")
+    sout = core.run_cases(db, ["spec_len %d" % x for x in probes], extra_args=list(fl), tag="c01ls")
+    bad_lens = [x for x, a, b in zip(probes, lout, sout) if a != b]
+    ctx.evaluations += len(probes)
+    ctx.suites["LEN-VS-REFERENCE"] = {"cases": len(probes), "failures": len(bad_lens)}
+    wrng = ctx.rng.fork("lenwitness")
+    for x in [y for y in bad_lens if y <= 4 * 1024 * 1024][:2]:
+        case = "hash N 30 %s" % hx(suites.gen_data(wrng, x, 0))
+        io = core.run_cases(hb, [case], shards=1, tag="c01w")[0]
+        so = core.run_cases(db, ["spec_" + case], extra_args=list(fl), shards=1, tag="c01ws")[0]
+        if io != so and not so.startswith("CRASH"):
+            ctx.violations.append({"suite": "GEN-VS-REFERENCE", "case": case if len(case) < 4000 else "hash N 30 <%d pseudo-random bytes, seed-derived> %s..." % (x, case[:200]),
+                                   "impl": io, "model": so, "what": "an input of %d bytes: finalize gives %s, the reference gives %s (length code)" % (x, io[:60], so[:60])})
+    for x in bad_lens[:20]:
+        ctx.violations.append({"suite": "LEN-VS-REFERENCE", "case": "len_new %d" % x, "impl": lout[probes.index(x)], "model": sout[probes.index(x)],
+                               "what": "the length code of %d bytes differs from the reference's" % x})
     inj = suites.gen_inject_cases(ctx.rng.fork("inj"), ctx.tier if ctx.tier != "quick" else "quick")
     # more finalize-heavy injected cases
     rng = ctx.rng.fork("inj2")
